@@ -759,10 +759,16 @@ mod pattern_impl {
     pub struct RegexSearcher<'r, 't> {
         haystack: &'t str,
         regex: &'r Regex,
+        // End of the last step returned by next(): steps must be adjacent.
         current_pos: usize,
+        // Where to resume searching; one character past an empty match. None once
+        // no further match is possible.
+        search_pos: Option<usize>,
         done: bool,
-        // For reverse searching
+        // For reverse searching: start of the last step returned by next_back(),
+        // and the matches not yet reported, in forward order.
         reverse_pos: usize,
+        reverse_matches: Option<Vec<(usize, usize)>>,
         reverse_done: bool,
     }
 
@@ -772,23 +778,12 @@ mod pattern_impl {
                 haystack,
                 regex,
                 current_pos: 0,
+                search_pos: Some(0),
                 done: false,
                 reverse_pos: haystack.len(),
+                reverse_matches: None,
                 reverse_done: false,
             }
-        }
-
-        fn find_last_match_before(&self, pos: usize) -> Option<super::Match> {
-            // Find all matches up to the given position and return the last one
-            let mut last_match = None;
-            for m in self.regex.find_from(self.haystack, 0) {
-                if m.end() <= pos {
-                    last_match = Some(m);
-                } else {
-                    break;
-                }
-            }
-            last_match
         }
     }
 
@@ -802,52 +797,47 @@ mod pattern_impl {
                 return SearchStep::Done;
             }
 
-            // Try to find the next match starting from current position
-            if let Some(m) = self.regex.find_from(self.haystack, self.current_pos).next() {
+            // Try to find the next match starting from the search position
+            let found = self
+                .search_pos
+                .and_then(|pos| self.regex.find_from(self.haystack, pos).next());
+            if let Some(m) = found {
                 let match_start = m.start();
                 let match_end = m.end();
 
                 // Handle any gap between current position and match start
                 if self.current_pos < match_start {
-                    let reject_end = match_start;
                     let reject_start = self.current_pos;
                     self.current_pos = match_start;
-                    return SearchStep::Reject(reject_start, reject_end);
+                    self.search_pos = Some(match_start);
+                    return SearchStep::Reject(reject_start, match_start);
                 }
 
-                // Return the match
+                // Return the match. Steps stay adjacent: the next one starts at match_end.
                 self.current_pos = match_end;
-
-                // Handle zero-width matches to avoid infinite loops
-                if match_start == match_end {
-                    // For zero-width matches, we need to advance at least one byte
-                    // to avoid infinite loops
-                    if match_end < self.haystack.len() {
-                        // Find the next character boundary
-                        let mut next_pos = match_end + 1;
-                        while next_pos < self.haystack.len()
-                            && !self.haystack.is_char_boundary(next_pos)
-                        {
-                            next_pos += 1;
-                        }
-                        self.current_pos = next_pos;
-                    } else {
-                        // We're at the end of the string
-                        self.done = true;
+                self.search_pos = if match_start != match_end {
+                    Some(match_end)
+                } else if match_end < self.haystack.len() {
+                    // After a zero-width match resume searching one character further,
+                    // to avoid finding the same match again.
+                    let mut next_pos = match_end + 1;
+                    while !self.haystack.is_char_boundary(next_pos) {
+                        next_pos += 1;
                     }
-                }
+                    Some(next_pos)
+                } else {
+                    None
+                };
 
                 SearchStep::Match(match_start, match_end)
             } else {
                 // No more matches, reject remaining text if any
+                self.done = true;
                 if self.current_pos < self.haystack.len() {
                     let reject_start = self.current_pos;
-                    let reject_end = self.haystack.len();
                     self.current_pos = self.haystack.len();
-                    self.done = true;
-                    SearchStep::Reject(reject_start, reject_end)
+                    SearchStep::Reject(reject_start, self.haystack.len())
                 } else {
-                    self.done = true;
                     SearchStep::Done
                 }
             }
@@ -860,48 +850,32 @@ mod pattern_impl {
                 return SearchStep::Done;
             }
 
-            // Try to find the last match before current reverse position
-            if let Some(m) = self.find_last_match_before(self.reverse_pos) {
-                let match_start = m.start();
-                let match_end = m.end();
-
+            // The matches are those of find_iter, reported last to first.
+            let (regex, haystack) = (self.regex, self.haystack);
+            let matches = self.reverse_matches.get_or_insert_with(|| {
+                regex
+                    .find_iter(haystack)
+                    .map(|m| (m.start(), m.end()))
+                    .collect()
+            });
+            if let Some(&(match_start, match_end)) = matches.last() {
                 // Handle any gap between match end and current reverse position
                 if match_end < self.reverse_pos {
-                    let reject_start = match_end;
                     let reject_end = self.reverse_pos;
                     self.reverse_pos = match_end;
-                    return SearchStep::Reject(reject_start, reject_end);
+                    return SearchStep::Reject(match_end, reject_end);
                 }
-
-                // Return the match
+                matches.pop();
                 self.reverse_pos = match_start;
-
-                // Handle zero-width matches
-                if match_start == match_end {
-                    // For zero-width matches, move back by one character
-                    if match_start > 0 {
-                        let mut prev_pos = match_start - 1;
-                        while prev_pos > 0 && !self.haystack.is_char_boundary(prev_pos) {
-                            prev_pos -= 1;
-                        }
-                        self.reverse_pos = prev_pos;
-                    } else {
-                        // We're at the beginning of the string
-                        self.reverse_done = true;
-                    }
-                }
-
                 SearchStep::Match(match_start, match_end)
             } else {
                 // No more matches, reject remaining text if any
+                self.reverse_done = true;
                 if self.reverse_pos > 0 {
-                    let reject_start = 0;
                     let reject_end = self.reverse_pos;
                     self.reverse_pos = 0;
-                    self.reverse_done = true;
-                    SearchStep::Reject(reject_start, reject_end)
+                    SearchStep::Reject(0, reject_end)
                 } else {
-                    self.reverse_done = true;
                     SearchStep::Done
                 }
             }
